@@ -305,6 +305,16 @@ def _tool_jobs(scenarios, mode=None, reach=(), bounds='', thorough_only=False):
     return jobs
 _TOOLS_BOUNDS = 'fully built tree, then at most one source edited and at most one built file deleted; one of 17 tool invocations (commands, commands -s, inputs, multi-inputs -d, query, targets all|rule|depth, rules, graph, compdb, compdb -x, compdb-targets, deps, missingdeps, restat, recompact) or -n, on a symbolic target, entered through real_main(argv); then the real build'
 CHECKS['C19']['jobs'] += _tool_jobs([0, 2], reach=('read-only-tool', 'commands', 'inputs', 'compdb', 'dry-run'), bounds=_TOOLS_BOUNDS)
+CHECKS['C19']['jobs'] += _tool_jobs([6, 5], reach=('read-only-tool', 'commands', 'inputs', 'compdb', 'dry-run'), bounds=_TOOLS_BOUNDS)
+CHECKS['C18']['jobs'] += _tool_jobs([2, 6], mode='MODE_CLEAN', reach=('clean-all', 'clean-all-g', 'clean-target', 'clean-rule', 'dry-run'), bounds='fully built tree, then at most one source edited and one built file deleted; ninja [-n] -t clean [-g | target | -r rule] through ToolClean; then a full build')
+CHECKS['C02']['jobs'] += _via_main(_hist_jobs('CHECK_C02', 2, 3, [29], reach=('built', 'converged-checked', 'manifest-regenerated')))
+CHECKS['C05']['jobs'] += _via_main(_mode_jobs('MODE_FAIL', [0], reach=('failed', 'retried', 'all-succeeded', 'missing-source'), bounds='one invocation from the empty tree; any subset of commands fails with exit code 1..3, touched or not; -k in {1,2,0}; -j in {1,2,3}; any one source missing'))
+CHECKS['C07']['jobs'] += _via_main(_mode_jobs('MODE_CRASH', [3], extra=['INTERRUPT'], suffix='_interrupt', reach=('interrupted', 'recovered'), bounds='interrupt at any wait, running commands touched their outputs or not; recovery build'))
+CHECKS['C07']['jobs'] += _via_main(_mode_jobs('MODE_CRASH', [1], reach=('died', 'survived', 'recovered'), quick_defs=['VERIF_MAX_EVENTS=40'], bounds='build from the empty tree killed after persistence event 0..40, -j in {1,2}, every completion order; recovery build; no-op build'))
+CHECKS['C19']['jobs'] += _via_main(_mode_jobs('MODE_DRYRUN', [0], reach=('compared', 'nothing-to-do'), bounds='fully built tree + symbolic edits/deletions, symbolic target subset, -j in {1,2}; dry run then real run'))
+CHECKS['C17']['jobs'] += _via_main(_mode_jobs('MODE_CYCLE', [16], reach=('cycle-diagnosed', 'acyclic-built'), bounds='symbolic target subset, -j in {1,2}, two invocations'))
+CHECKS['C20']['jobs'] += _via_main(_mode_jobs('MODE_STATUS', [5], reach=('success', 'output-shown'), bounds='one invocation from the empty tree, -j in {1,2,3}, each command prints or not, every completion order'))
+CHECKS['C06']['jobs'] += _via_main(_mode_jobs('MODE_SCHED', [9], extra=['WITH_FAILURES'], suffix='_fail', reach=('built',), bounds='one invocation from the empty tree with any subset of commands failing, -k in {1,2}, -j in {1,2,3}, every completion order'))
 
 # ---- tiering: which jobs run in the quick tier (measured on 16 cores; the rest is thorough only) -------------------------------------------
 def _single_edit_variant(prop, job_name):
